@@ -13,7 +13,9 @@ META = dict(
          "one-command-per-line normal form and all kinds combined (thorough: also every pair of single edits of one runnable "
          "program). Oracle: the structural dump of the built houses equals that of the original text (or the same error); "
          "for the runnable programs the recorder events, per-tick framer snapshots and outcome of a 12-tick real Skedder run "
-         "are equal too.",
+         "are equal too. Two runnable multi-file programs (a parent that `load`s a fragment in the middle of a frame and "
+         "continues after it) get every edit on the fragment, each with and without a newline at the end of the file, so that a "
+         "continuation line is the very last line of the loaded file.",
     note="Comment or blank lines are inserted between commands (also between a command and its connective continuation), not "
          "inside a backslash-continued command; comments go at the end of a physical line that does not end in a backslash. "
          "Plans are built, not run (they log to disk / open sockets).",
@@ -118,7 +120,68 @@ def variants(scripts, cmds, with_pairs):
     return vs
 
 
+def observe_multi(scripts, spec, fragtext):
+    files = dict(scripts.LOADED)
+    files[spec["fragname"]] = fragtext
+    b = scripts.build(spec["parent"], extra_files=files, limit=10.0)
+    if b.kind == "Watchdog":
+        b = scripts.build(spec["parent"], extra_files=files, limit=40.0)
+    if not b.ok:
+        return ("fail", "Watchdog: build does not terminate" if b.kind == "Watchdog"
+                else scripts.failure_sig(b, strip_lines=True))
+    d = scripts.dumps(b)
+    if spec.get("run"):
+        d += "\nRUN " + run_trace(scripts, b)
+    return ("ok", digest(d))
+
+
+def work_multi(item):
+    """Programs made of a parent that `load`s a fragment: the layout edits go to the fragment."""
+    scripts = _load()
+    pi, name, kind, spec, flag, lo, hi, _ = item
+    p = core.Part()
+    found = {}
+    ref = observe_multi(scripts, spec, spec["fragment"])
+    if lo == 0:
+        p.outcome("original multi: %s" % (ref[0] if ref[0] == "ok" else ref[1][:60]))
+    vs = list(scripts.fragment_variants(spec["fragment"]))
+    for vi in range(lo, min(hi, len(vs))):
+        label, ftext = vs[vi]
+        got = observe_multi(scripts, spec, ftext)
+        p.evaluations += 1
+        if ftext != spec["fragment"]:
+            p.nontrivial(name + "\0" + ftext)
+        ek = "loaded fragment: " + edit_kind(label[len("fragment "):].split("; ")[0]) + \
+             (", no final newline" if label.endswith("no newline at end of file") else "")
+        p.outcome("%s: %s" % (ek, "same" if got == ref else "DIFFERENT"))
+        if p.evaluations % 199 == 1:
+            p.sample(dict(program=name, edit=label, outcome=got[0]))
+        if got == ref:
+            continue
+        if ref[0] == "ok" and got[0] == "ok":
+            div = "built house or run differs"
+        elif ref[0] == "ok":
+            div = "original builds, variant fails"
+        elif got[0] == "ok":
+            div = "original fails, variant builds"
+        else:
+            div = "different error"
+        group = "%s|%s" % (ek, div)
+        rank = (flag, pi, 0 if "cmd" in label else 1, vi)
+        if group not in found or rank < found[group][0]:
+            found[group] = (rank, "%s: %s" % (name, label),
+                            "%s, %s: %s (original: %s, variant: %s)" % (name, label, div, ref[1][:80], got[1][:80]),
+                            dict(program=name, edit=label, parent=spec["parent"], fragment_name=spec["fragname"],
+                                 fragment_original=spec["fragment"], fragment_variant=ftext,
+                                 how="write parent and fragment to one directory, build the parent with "
+                                     "ioflo.base.building.Builder for both fragment texts and compare"))
+    p.extra["found"] = found
+    return p
+
+
 def work(item):
+    if item[2] == "multi":
+        return work_multi(item)
     scripts = _load()
     pi, name, kind, text, flag, lo, hi, with_pairs = item
     p = core.Part()
@@ -174,6 +237,11 @@ def run():
             raise core.BrokenCheck("generated program 'allverbs' has no `%s ... %s` command" % (verb, conn))
     items = []
     nvar = {}
+    for mi, (mname, spec) in enumerate(scripts.MULTI.items()):
+        n = sum(1 for _ in scripts.fragment_variants(spec["fragment"]))
+        nvar[mname] = n
+        for lo in range(0, n, CHUNK):
+            items.append((1000 + mi, mname, "multi", spec, 0, lo, lo + CHUNK, False))
     for pi, (name, kind, text, flag) in enumerate(progs):
         cmds = scripts.parse_commands(text)
         with_pairs = core.TIER == "thorough" and name == "flat"
